@@ -48,10 +48,14 @@ def srcFileRefs : SrcFile → List (Str × Str)
   | .proto _ _ _ => []
   | .j5s path _ elems _ => fileRefs (packageFromFilename (path ++ b!".proto")) elems
 
-/-- two resolvers agree on the references of a source file, under every import map -/
-def AgreeFile (res res' : Resolver) (f : SrcFile) : Prop :=
-  ∀ im, AgreeOn { resolve := resolveTypeNoImport im res } { resolve := resolveTypeNoImport im res' }
-    (srcFileRefs f)
+/-- two resolvers agree on the references of a source file, looked up through the file's own
+import map -/
+def AgreeFile (res res' : Resolver) : SrcFile → Prop
+  | .proto _ _ _ => True
+  | .j5s path imports elems _ =>
+    ∀ im, j5Imports (packageFromFilename (path ++ b!".proto")) imports = .ok im →
+      AgreeOn { resolve := resolveTypeNoImport im res } { resolve := resolveTypeNoImport im res' }
+        (fileRefs (packageFromFilename (path ++ b!".proto")) elems)
 
 theorem convOf_congr (res res' : Resolver) (f : SrcFile) (h : AgreeFile res res' f) :
     convOf res f = convOf res' f := by
@@ -59,7 +63,7 @@ theorem convOf_congr (res res' : Resolver) (f : SrcFile) (h : AgreeFile res res'
   | proto path msgs enums => rfl
   | j5s path imports elems decl =>
     simp only [convOf]
-    rw [convertFile_congr res res' path imports elems h]
+    rw [convertFile_congr' res res' path imports elems h]
 
 /-- extension relation between generated files -/
 def FileSkel.Le (f f' : FileSkel) : Prop :=
